@@ -298,9 +298,25 @@ func (ad *Advertisement) VerifySignature() (peer.ID, error) {
 		seenTopLevelProv := false
 		for _, p := range ad.ExtendedProvider.Providers {
 
-			_, err = record.ConsumeTypedEnvelope(p.Signature, rec)
+			epEnvelope, err := record.ConsumeTypedEnvelope(p.Signature, rec)
 			if err != nil {
 				return "", err
+			}
+			// The entry must be signed by the identity it names; the entry of
+			// the advertisement's own provider is signed by the ad signer.
+			epSignerID, err := peer.IDFromPublicKey(epEnvelope.PublicKey)
+			if err != nil {
+				return "", fmt.Errorf("cannot convert public key to peer ID: %w", err)
+			}
+			if p.ID == ad.Provider {
+				if epSignerID != signerID {
+					return "", errors.New("extended provider signature not made by advertisement signer")
+				}
+			} else if epSignerID.String() != p.ID {
+				epID, err := peer.Decode(p.ID)
+				if err != nil || epSignerID != epID {
+					return "", errors.New("extended provider signature not made by extended provider")
+				}
 			}
 
 			// Calculate our signature payload
